@@ -355,6 +355,7 @@ func runCheck(c *CheckDef, tier string, workers int, only, solver string, seed i
 	if c.Deadline != nil {
 		run.Deadline = time.Now().Add(c.Deadline(tier))
 	}
+	run.FailFast = 300
 	if mp := os.Getenv("VERIF_MAXPATHS"); mp != "" {
 		run.MaxPaths, _ = strconv.Atoi(mp)
 	}
@@ -430,9 +431,10 @@ func runCheck(c *CheckDef, tier string, workers int, only, solver string, seed i
 
 	// ---- native replay of witnesses and violation candidates ----
 	type group struct {
-		pkg   *PkgDef
-		wits  []sym.Witness
-		viols []*sym.Violation
+		pkg    *PkgDef
+		wits   []sym.Witness
+		viols  []*sym.Violation
+		probes []sym.Witness
 	}
 	groups := map[string]*group{}
 	cfgOf := map[string]*sym.HarnessConfig{}
@@ -457,6 +459,10 @@ func runCheck(c *CheckDef, tier string, workers int, only, solver string, seed i
 		g := grp(v.Harness)
 		g.viols = append(g.viols, v)
 	}
+	for _, w := range run.Probes {
+		g := grp(w.Harness)
+		g.probes = append(g.probes, w)
+	}
 	expectSeen := map[string]bool{}
 	for _, g := range groups {
 		ov, err := buildOverlay(c, true, g.pkg)
@@ -473,6 +479,9 @@ func runCheck(c *CheckDef, tier string, workers int, only, solver string, seed i
 		}
 		for _, v := range g.viols {
 			cases = append(cases, sym.NativeCase{Harness: v.Harness, Params: v.Params, Draws: v.Draws})
+		}
+		for _, w := range g.probes {
+			cases = append(cases, sym.NativeCase{Harness: w.Harness, Params: w.Params, Draws: w.Draws})
 		}
 		if len(cases) == 0 {
 			continue
@@ -493,6 +502,17 @@ func runCheck(c *CheckDef, tier string, workers int, only, solver string, seed i
 				res.Samples = append(res.Samples, map[string]interface{}{"harness": w.Harness, "params": w.Params, "draws": w.Draws, "outcome": w.Outcome, "observations": w.Obs})
 			}
 		}
+		// Out-of-model paths cannot be decided symbolically (the run stays
+		// inconclusive), but the inputs drawn so far are a concrete test: if the
+		// real code fails an assertion on them, that is a reproduced violation.
+		for i, w := range g.probes {
+			nr := nres[len(g.wits)+len(g.viols)+i]
+			if strings.HasPrefix(nr.Outcome, "assert:") && nr.Outcome != "assert:reachable" {
+				v := &sym.Violation{Harness: w.Harness, Params: w.Params, Label: strings.TrimPrefix(nr.Outcome, "assert:"), Draws: w.Draws,
+					Site: "native probe of an out-of-model path", Msg: "the engine could not model this path; its inputs were run against the native build"}
+				res.Confirmed = append(res.Confirmed, writeReplay(c, v, nr))
+			}
+		}
 		for i, v := range g.viols {
 			nr := nres[len(g.wits)+i]
 			hc := cfgOf[v.Harness]
@@ -506,6 +526,14 @@ func runCheck(c *CheckDef, tier string, workers int, only, solver string, seed i
 				reproduced = got == "assert:"+want || got == "panic"
 			default:
 				reproduced = got == "assert:"+want
+				if !reproduced && strings.HasPrefix(got, "assert:") && got != "assert:reachable" && !hc.ExpectViolation && v.Known == "" {
+					// the native run fails another assertion of the same harness on the
+					// same inputs (e.g. an earlier one the engine's model let through):
+					// a real violation; report it under the natively failing label
+					v.Msg = fmt.Sprintf("engine predicted label %q; natively %q fails first", want, got)
+					v.Label = strings.TrimPrefix(got, "assert:")
+					reproduced = true
+				}
 			}
 			if hc.ExpectViolation {
 				if reproduced && want == "reachable" {
